@@ -1,1 +1,329 @@
-fn main(){}
+//! CLI used by /verif/check.
+//!   vcheck run <Cxx> <quick|thorough>        orchestrates worker processes, writes evidence
+//!   vcheck worker <Cxx> <tier> <seed> <w> <W> <profile> <out.json>
+//!   vcheck replay <Cxx> <file>               exit 1 + VIOLATION line if it still fails
+//!   vcheck selftest
+//!   vcheck sample <Cxx> <n>
+
+use std::collections::{BTreeMap, BTreeSet};
+use std::process::{Command, Stdio};
+use std::time::Instant;
+use vharness::driver::*;
+use vharness::props;
+
+const VERIF: &str = "/verif";
+
+macro_rules! dispatch {
+    ($id:expr, $f:ident $(, $arg:expr)*) => {
+        match $id {
+            "C01" => $f::<props::c01::C01>($($arg),*),
+            other => {
+                eprintln!("unknown property {other}");
+                std::process::exit(2)
+            }
+        }
+    };
+}
+
+fn profile_name() -> &'static str {
+    if cfg!(debug_assertions) {
+        "checked"
+    } else {
+        "release"
+    }
+}
+
+fn worker_main<P: Property>(args: &[String]) -> i32 {
+    let tier = Tier::parse(&args[1]).expect("tier");
+    let seed: u64 = args[2].parse().expect("seed");
+    let worker: usize = args[3].parse().unwrap();
+    let workers: usize = args[4].parse().unwrap();
+    let profile = args[5].clone();
+    let out = &args[6];
+    let wa = WorkerArgs {
+        tier,
+        seed,
+        worker,
+        workers,
+        profile,
+        known: load_known(&format!("{VERIF}/known_findings.json")),
+        regress_dir: format!("{VERIF}/regress/{}", P::ID),
+        replay_dir: format!("{VERIF}/replays/{}", P::ID),
+    };
+    let rep = run_worker::<P>(&wa);
+    std::fs::write(out, serde_json::to_vec(&rep).unwrap()).expect("write worker report");
+    0
+}
+
+fn meta<P: Property>() -> (Vec<&'static str>, String, Vec<String>) {
+    (
+        P::quick_profiles().to_vec(),
+        P::RULE.to_string(),
+        P::assumptions(),
+    )
+}
+
+fn replay_main<P: Property>(path: &str) -> i32 {
+    let txt = std::fs::read_to_string(path).unwrap_or_else(|e| {
+        eprintln!("cannot read {path}: {e}");
+        std::process::exit(2)
+    });
+    let rf: ReplayFile = serde_json::from_str(&txt).unwrap_or_else(|e| {
+        eprintln!("cannot parse {path}: {e}");
+        std::process::exit(2)
+    });
+    match replay::<P>(&rf) {
+        Some(f) => {
+            println!("[{}] still fails: {} — {}", profile_name(), f.sig, f.msg);
+            println!("VIOLATION property={} replay={}", P::ID, path);
+            1
+        }
+        None => {
+            println!("[{}] replay passes", profile_name());
+            0
+        }
+    }
+}
+
+fn sample_main<P: Property>(n: usize) -> i32 {
+    for c in sample_cases::<P>(Tier::Quick, 1, n) {
+        println!("{}", serde_json::to_string(&c).unwrap());
+        let (out, _) = on_fresh_thread(move || P::run(&c));
+        println!("  -> fail={:?} nontrivial={} classes={:?}", out.fail, out.nontrivial, out.classes);
+    }
+    0
+}
+
+fn run_main(id: &str, tier: Tier) -> i32 {
+    let t0 = Instant::now();
+    let seed: u64 = std::env::var("VERIF_SEED")
+        .ok()
+        .and_then(|s| s.parse().ok())
+        .unwrap_or(1);
+    let total_workers: usize = std::env::var("VERIF_WORKERS")
+        .ok()
+        .and_then(|s| s.parse().ok())
+        .unwrap_or(16);
+    if let Err(e) = vharness::refcodec::self_test() {
+        eprintln!("harness self-test failed (reference codec): {e}");
+        return 2;
+    }
+    let (quick_profiles, rule, assumptions) = dispatch!(id, meta);
+    let profiles: Vec<&str> = match tier {
+        Tier::Quick => quick_profiles,
+        Tier::Thorough => vec!["checked", "release"],
+    };
+    let per = (total_workers / profiles.len()).max(1);
+    let work = format!("{VERIF}/work/{id}");
+    let _ = std::fs::remove_dir_all(&work);
+    std::fs::create_dir_all(&work).unwrap();
+    let mut children = vec![];
+    for p in &profiles {
+        let bin = format!("{VERIF}/harness/target/{p}/vcheck");
+        for w in 0..per {
+            let out = format!("{work}/{p}-{w}.json");
+            let child = Command::new(&bin)
+                .args([
+                    "worker",
+                    id,
+                    tier.name(),
+                    &seed.to_string(),
+                    &w.to_string(),
+                    &per.to_string(),
+                    p,
+                    &out,
+                ])
+                .stdout(Stdio::inherit())
+                .stderr(Stdio::inherit())
+                .spawn()
+                .unwrap_or_else(|e| {
+                    eprintln!("cannot start {bin}: {e}");
+                    std::process::exit(2)
+                });
+            children.push((child, out, p.to_string(), w));
+        }
+    }
+    let mut reports: Vec<WorkerReport> = vec![];
+    let mut infra_fail = false;
+    for (mut c, out, p, w) in children {
+        let st = c.wait().unwrap();
+        if !st.success() {
+            eprintln!("worker {p}/{w} exited with {st} (infrastructure failure)");
+            infra_fail = true;
+            continue;
+        }
+        match std::fs::read(&out).ok().and_then(|b| serde_json::from_slice(&b).ok()) {
+            Some(r) => reports.push(r),
+            None => {
+                eprintln!("worker {p}/{w} left no report");
+                infra_fail = true;
+            }
+        }
+    }
+    if infra_fail {
+        return 2;
+    }
+    // merge
+    let mut evaluations = 0u64;
+    let mut generated = 0u64;
+    let mut exhaustive = 0u64;
+    let mut regress = 0u64;
+    let mut nontrivial: BTreeSet<u64> = BTreeSet::new();
+    let mut classes: BTreeMap<String, u64> = BTreeMap::new();
+    let mut excluded: BTreeMap<String, u64> = BTreeMap::new();
+    let mut known_hits: BTreeMap<String, u64> = BTreeMap::new();
+    let mut samples = vec![];
+    let mut violations: Vec<ReplayFile> = vec![];
+    let mut exhaustive_complete = true;
+    for r in &reports {
+        evaluations += r.evaluations;
+        generated += r.generated;
+        exhaustive += r.exhaustive;
+        regress += r.regress;
+        nontrivial.extend(r.nontrivial_hashes.iter().copied());
+        for (k, v) in &r.classes {
+            *classes.entry(k.clone()).or_insert(0) += v;
+        }
+        for (k, v) in &r.excluded {
+            *excluded.entry(k.clone()).or_insert(0) += v;
+        }
+        for (k, v) in &r.known_hits {
+            *known_hits.entry(k.clone()).or_insert(0) += v;
+        }
+        if samples.len() < 5 {
+            for s in &r.samples {
+                if samples.len() < 5 {
+                    samples.push(props::common::abbreviate(s));
+                }
+            }
+        }
+        violations.extend(r.violations.iter().cloned());
+        exhaustive_complete &= r.exhaustive_complete;
+    }
+    // known findings that still reproduce
+    let known = load_known(&format!("{VERIF}/known_findings.json"));
+    for k in known.iter().filter(|k| k.property == id && k.status == "open") {
+        if known_hits.get(&k.id).copied().unwrap_or(0) > 0 {
+            println!("KNOWN-FINDING: property={} {} [{}]", id, k.what, k.id);
+        }
+    }
+    let mut seen = BTreeSet::new();
+    let mut printed = 0;
+    for v in &violations {
+        if seen.insert(v.sig.clone()) {
+            let path = v
+                .msg
+                .rsplit("[replay=")
+                .next()
+                .map(|s| s.trim_end_matches(']').to_string())
+                .unwrap_or_default();
+            let mut m = v.msg.clone();
+            if m.len() > 1500 {
+                m.truncate(1500);
+                m.push('…');
+            }
+            println!("--- {} ({}): {}", v.sig, v.profile, m);
+            println!("VIOLATION property={} replay={}", id, path);
+            printed += 1;
+        }
+    }
+    let wall = t0.elapsed().as_secs_f64();
+    let ev = serde_json::json!({
+        "property_id": id,
+        "tier": tier.name(),
+        "seed": seed,
+        "level": "exploration",
+        "coverage": {
+            "evaluations": evaluations,
+            "distinct_nontrivial": nontrivial.len(),
+            "rule": rule,
+            "samples": samples,
+            "exhaustive": exhaustive > 0 && exhaustive_complete && generated == 0,
+            "generated_cases": generated,
+            "exhaustive_slice_cases": exhaustive,
+            "exhaustive_slice_complete": exhaustive_complete,
+            "regress_cases": regress,
+            "classes": classes,
+            "excluded": excluded,
+            "known_finding_hits": known_hits,
+            "profiles": profiles,
+            "workers_per_profile": per,
+        },
+        "assumptions": assumptions,
+        "wall_s": wall,
+        "violations": printed,
+    });
+    let evdir = if std::env::var("VERIF_NO_EVIDENCE").is_ok() {
+        format!("{VERIF}/work/evidence-scratch")
+    } else {
+        format!("{VERIF}/evidence")
+    };
+    std::fs::create_dir_all(&evdir).unwrap();
+    std::fs::write(
+        format!("{evdir}/{id}.json"),
+        serde_json::to_string_pretty(&ev).unwrap(),
+    )
+    .unwrap();
+    let _ = std::fs::remove_dir_all(&work);
+    println!(
+        "{id} {}: {} evaluations ({} generated, {} exhaustive, {} regress), {} distinct non-trivial, {} violation signature(s), {:.1}s",
+        tier.name(),
+        evaluations,
+        generated,
+        exhaustive,
+        regress,
+        nontrivial.len(),
+        printed,
+        wall
+    );
+    if printed > 0 {
+        1
+    } else {
+        0
+    }
+}
+
+fn main() {
+    let args: Vec<String> = std::env::args().skip(1).collect();
+    if args.is_empty() {
+        eprintln!("usage: vcheck run|worker|replay|selftest|sample ...");
+        std::process::exit(2);
+    }
+    let code = match args[0].as_str() {
+        "selftest" => match vharness::refcodec::self_test() {
+            Ok(()) => {
+                println!("refcodec self-test ok");
+                0
+            }
+            Err(e) => {
+                eprintln!("refcodec self-test FAILED: {e}");
+                2
+            }
+        },
+        "run" => {
+            let tier = Tier::parse(&args[2]).unwrap_or_else(|| {
+                eprintln!("tier must be quick|thorough");
+                std::process::exit(2)
+            });
+            run_main(&args[1], tier)
+        }
+        "worker" => {
+            let id = args[1].clone();
+            dispatch!(id.as_str(), worker_main, &args[1..])
+        }
+        "replay" => {
+            let id = args[1].clone();
+            dispatch!(id.as_str(), replay_main, &args[2])
+        }
+        "sample" => {
+            let id = args[1].clone();
+            let n: usize = args.get(2).and_then(|s| s.parse().ok()).unwrap_or(5);
+            dispatch!(id.as_str(), sample_main, n)
+        }
+        other => {
+            eprintln!("unknown command {other}");
+            2
+        }
+    };
+    std::process::exit(code);
+}
